@@ -615,6 +615,14 @@ func (b *Builder) PatchConfig() ([]byte, error) {
 
 	if b.FileType == FILETYPE_WINDOWS_SERVICE_EXE {
 		if val, ok := b.config.Config["Service Name"].(string); ok {
+			/* the name ends up on the compiler command line, which is run through "sh -c":
+			 * only accept characters the shell takes as data */
+			for _, c := range val {
+				if !((c >= 'a' && c <= 'z') || (c >= 'A' && c <= 'Z') || (c >= '0' && c <= '9') || c == '_' || c == '-' || c == '.') {
+					return nil, errors.New("the service name may only contain letters, digits, '_', '-' and '.'")
+				}
+			}
+
 			if len(val) > 0 {
 				b.compilerOptions.Defines = append(b.compilerOptions.Defines, "SERVICE_NAME=\\\""+val+"\\\"")
 				if !b.silent {
